@@ -70,6 +70,7 @@ PNODE = Family(
         'get_root_node': _pm('get_root_node', [], _P),
         'get_code': _pm('get_code', [('include_prefix', BOOL)], STR, defaults={'include_prefix': True}),
         'get_start_pos_of_prefix': _pm('get_start_pos_of_prefix', [], POS),
+        'get_used_names': _pm('get_used_names', [], Obj('UsedNames')),
         'get_leaf_for_position': _pm('get_leaf_for_position', [('position', POS), ('include_prefixes', BOOL)],
                                      Opt(_P), defaults={'include_prefixes': False}),
     },
